@@ -6,7 +6,8 @@
     in the Execution; a throw, a timeout, a non-bindings return value or an
     unserialisable emission returns NO Execution.  [step] / [walk_stride]
     are the engine (any action type, any behaviour of actions/guards). *)
-From Sheens Require Import Model.Step Model.Action Spec.WalkSpec Proofs.StepFacts Proofs.EngineFacts.
+From Sheens Require Import Model.Step Model.Action Spec.WalkSpec Spec.SilentSpec Proofs.StepFacts Proofs.EngineFacts
+     Proofs.C08Silent.
 
 (** a script that fails - after any number of emissions, in any of the
     modelled ways - contributes no Execution, hence no emission *)
@@ -51,12 +52,38 @@ Theorem C08_idle_stride_silent :
 Proof. exact (walk_stride_idle_silent action run s). Qed.
 End Engine.
 
+(** The clause the correspondence run evaluates on the strides the
+    implementation returned ([failed_action_silent], Spec/SilentSpec.v: a
+    stride whose end state gained the binding "actionError" - and whose node's
+    action is not a native action that hands back an execution together with
+    its error - reports no message) never flags what the model does: every
+    stride of the model's [step] and of the model's [walk] satisfies it, for
+    every state, pending message, breakpoint, limit and every specification in
+    which no program of a constrained node writes the key "actionError" itself
+    ([no_action_error_writer]; necessary: [C08_failed_action_needs_no_writer]).
+    So the clause demands nothing beyond the modelled semantics. *)
+Theorem C08_failed_action_reports_nothing_step :
+  forall (sp : aspec) st pending sd,
+  no_action_error_writer sp = true ->
+  so_stride (astep sp st pending) = Some sd ->
+  failed_action_silent sp sd = true.
+Proof. exact step_failed_action_silent. Qed.
+
+Theorem C08_failed_action_reports_nothing_walk :
+  forall (sp : aspec) bp limit st msgs w amb,
+  no_action_error_writer sp = true ->
+  awalk sp bp limit st msgs = (w, amb) ->
+  forallb (failed_action_silent sp) (w_strides w) = true.
+Proof. exact walk_failed_action_silent. Qed.
+
 Print Assumptions C08_failing_script_has_no_execution.
 Print Assumptions C08_failing_script_emits_nothing.
 Print Assumptions C08_success_emits_in_order.
 Print Assumptions C08_stride_emits_action_output.
 Print Assumptions C08_walk_stride_emits_action_output.
 Print Assumptions C08_idle_stride_silent.
+Print Assumptions C08_failed_action_reports_nothing_step.
+Print Assumptions C08_failed_action_reports_nothing_walk.
 
 (** non-vacuity: emit twice, then throw: nothing; emit twice and return: both, in order *)
 Example C08_nonvacuous :
@@ -65,3 +92,64 @@ Example C08_nonvacuous :
   func_exec act run_act (Js (mk_prog [AEmit (JNum 4); AEmit (JNum 8)] TRetBindings)) (Some [])
   = ((Some [], [JNum 4; JNum 8]), false).
 Proof. vm_compute. auto. Qed.
+
+(** non-vacuity of the clause: a specification with action-error branches
+    whose node "start" runs the given action and then follows a branch to
+    "next" with the bindings at hand *)
+Definition c08_fail_spec (a : act) : aspec :=
+  mk_spec [("start", mk_node (Some a) false (Some (mk_branching "bindings" [mk_branch None None "next"])));
+           ("next", mk_node None false None)]
+          true "" true.
+
+(** a script that emits, sets a binding, emits again and then throws: the
+    specification satisfies the hypothesis, the stride's end state gained
+    "actionError" (the clause's premise holds), and the stride reports nothing;
+    the same operations followed by a normal return report both messages *)
+Example C08_failed_action_nonvacuous :
+  let ops := [AEmit (JNum 4); ASet "x" (JNum 8); AEmit (JNum 8)] in
+  let sp := c08_fail_spec (Js (mk_prog ops TThrow)) in
+  no_action_error_writer sp = true /\
+  match so_stride (astep sp (mk_state "start" (Some [])) None) with
+  | Some sd =>
+      sd_emitted sd = [] /\ has_key "actionError" (sd_to sd) = true
+      /\ has_key "actionError" (Some (sd_from sd)) = false /\ hands_back_on_error sp sd = false
+      /\ option_map st_node (sd_to sd) = Some "next"
+  | None => False
+  end /\
+  match so_stride (astep (c08_fail_spec (Js (mk_prog ops TRetBindings))) (mk_state "start" (Some [])) None) with
+  | Some sd => sd_emitted sd = [JNum 4; JNum 8] /\ has_key "actionError" (sd_to sd) = false
+  | None => False
+  end.
+Proof. vm_compute. repeat split. Qed.
+
+(** why the clause exempts a native action that hands back its execution
+    together with the error: the model's Step reports what that execution
+    holds, although the end state gained "actionError" *)
+Example C08_hand_back_native_reports :
+  let sp := c08_fail_spec (Native (mk_prog [AEmit (JNum 4)] TThrow) true) in
+  no_action_error_writer sp = true /\
+  match so_stride (astep sp (mk_state "start" (Some [])) None) with
+  | Some sd =>
+      sd_emitted sd = [JNum 4] /\ has_key "actionError" (sd_to sd) = true
+      /\ has_key "actionError" (Some (sd_from sd)) = false /\ hands_back_on_error sp sd = true
+      /\ failed_action_silent sp sd = true
+  | None => False
+  end /\
+  (* the same program returning (nil, err): nothing is reported *)
+  match so_stride (astep (c08_fail_spec (Native (mk_prog [AEmit (JNum 4)] TThrow) false))
+                         (mk_state "start" (Some [])) None) with
+  | Some sd => sd_emitted sd = [] /\ has_key "actionError" (sd_to sd) = true
+  | None => False
+  end.
+Proof. vm_compute. repeat split. Qed.
+
+(** the hypothesis is needed: a script that itself binds "actionError" and
+    completes is flagged, on the model's own stride *)
+Example C08_failed_action_needs_no_writer :
+  let sp := c08_fail_spec (Js (mk_prog [AEmit (JNum 4); ASet "actionError" (JNum 8)] TRetBindings)) in
+  no_action_error_writer sp = false /\
+  match so_stride (astep sp (mk_state "start" (Some [])) None) with
+  | Some sd => sd_emitted sd = [JNum 4] /\ failed_action_silent sp sd = false
+  | None => False
+  end.
+Proof. vm_compute. repeat split. Qed.
